@@ -74,7 +74,9 @@ def _gen_image(ctx, rng, malformed):
         if r < 0.15:
             return 0
         if r < 0.3 and len(s) > 1:
-            return pos[s] + rng.randrange(1, len(s) + 1)      # suffix sharing / the terminator itself
+            # suffix sharing / the terminator itself; never inside a UTF-8 sequence
+            k = rng.choice([i for i in range(1, len(s) + 1) if i == len(s) or (s[i] & 0xc0) != 0x80])
+            return pos[s] + k
         return pos[s]
     # symbols
     nsym = rng.choice([0, 1, 1, 2, 3, 4, 5, 8, 13]) if rng.random() < 0.9 else None
@@ -327,6 +329,9 @@ def _plan(a):
             if s is None:
                 s = cur
             cur += sizes[name]
+            last = name
+        if sizes[last] == 0:
+            cur += fill.choice([1, 4])      # an empty table still has an address inside the file image
         starts.append(s)
         ends.append(cur)
         idx += gsz
